@@ -24,7 +24,8 @@ def step (st : St) (line : String) : St × String :=
   | ["keep"], some m => ({ st with before := some m }, "ok")
   | ["ssa"], some m =>
     (st, "ok " ++ " ".intercalate (m.funcs.map fun f =>
-      f.name ++ "=" ++ (if Model.OptCheck.ssaCheck f (Model.OptCheck.computeDoms f) then "1" else "0")))
+      f.name ++ "=" ++ (if Model.OptCheck.ssaCheck f (Model.OptCheck.computeDoms f) then "1" else "0")
+        ++ (if Model.OptCheck.tyCheck m f then "t" else "-")))
   | ["check", "subst"], some m =>
     match st.before with
     | some b => (st, if Model.OptCheck.checkSubst b m then "ok 1" else "ok 0")
